@@ -195,8 +195,12 @@ Through(s, c) ==
                 ELSE CHOOSE o \in outs : TRUE IN
     pick
 
+OneMore == Kind = "sub" /\ w = "sub" /\ Len(wh) = WrapLen /\ Len(wx.dir) = 3 /\ RootGone(st) /\ wh[WrapLen].op = "removeall"
+           /\ wh[WrapLen].v = 0 /\ wh[WrapLen].p = AbsP(<<>>) /\ wh[1].v = 9
 Call ==
-    /\ w # "none" /\ Len(wh) < WrapLen /\ ~PlanFired
+    \* (one longer sequence: the parent removes the root of the view of /w/B/a, the view empties its root, then any call)
+    /\ w # "none" /\ ~PlanFired
+    /\ (Len(wh) < WrapLen \/ OneMore)
     /\ \E c \in (IF Kind = "basepath" THEN BpCalls ELSE IF Kind = "sub" THEN SubCalls \cup ParentCalls \cup (IF wx.dir2 = <<"none">> THEN {} ELSE View2Calls) ELSE WrapCalls(st)) :
                                   LET o == Through(st, c)
                                       rp == Res(st, IF Kind = "basepath" THEN ToBase(st, c.p)
@@ -219,7 +223,7 @@ Call ==
           \* would be the same, under VIEW, as the one after the parent's Remove, and only one of the two histories
           \* would be emitted)
           /\ ~(Kind = "sub" /\ c.v = 0 /\ Len(wx.dir) = 3 /\ c.op \in {"remove", "removeall", "rename"}
-               /\ ToBaseD(wx.dir, wx.vcwd, c.p).parts = wx.dir)
+               /\ ~RootGone(st) /\ ToBaseD(wx.dir, wx.vcwd, c.p).parts = wx.dir)
           \* once the view's root directory is gone, C11 says what happens BELOW it (nothing can be found or created there:
           \* the parent's answer for dir + p); the removed root itself is still an (empty) directory for the view, as the
           \* root of a chroot is for its processes, and is not called upon
@@ -227,7 +231,9 @@ Call ==
                  \* (MkdirAll is left out as well: the parent's MkdirAll of dir + p would make dir anew, which the view, holding
                  \* the removed directory, cannot do - it answers ENOENT like the other creating calls)
                  (/\ c.op \notin HOps \cup {"getwd", "subwrite", "submkdir", "walk", "mkdirall"}
-                  /\ (c.op # "setumask" => Len(ToBaseD(wx.dir, wx.vcwd, c.p).parts) > Len(wx.dir))
+                  \* (... except RemoveAll("/"), as the second call of the sequence above)
+                  /\ (c.op # "setumask" => (Len(ToBaseD(wx.dir, wx.vcwd, c.p).parts) > Len(wx.dir)
+                                             \/ (c.op = "removeall" /\ Len(wh) = WrapLen - 1 /\ c.p = AbsP(<<>>) /\ Len(wx.dir) = 3)))
                   /\ (c.op \in {"rename", "link"} => Len(ToBaseD(wx.dir, wx.vcwd, c.q).parts) > Len(wx.dir))))
           \* (with a second view, only the sequences in which it takes part: the others are those of the single view)
           /\ ~(Kind = "sub" /\ wx.dir2 # <<"none">> /\ wh # <<>> /\ last.call.v # 8 /\ c.v # 8)
@@ -264,7 +270,7 @@ Call ==
 
 Next == Build \/ Wrap \/ Call
 Spec == Init /\ [][Next]_vars
-View == <<Proj(st), st.cwdn, HView(st), w, wx, Len(hist), Len(wh)>>
+View == <<Proj(st), st.cwdn, HView(st), w, wx, Len(hist), Len(wh), OneMore>>
 
 \* C09 on the specification: nothing done through a read-only wrapper changes the base tree
 RoNeverChangesBase == [][(w \in {"rofs", "failro"} /\ w' = w) => Proj(st') = Proj(st)]_vars
